@@ -43,8 +43,8 @@ func TestC09(t *testing.T) {
 	// chains, many directories, prefix-related names, symbolic links): sizes of the metadata area are predicted
 	// in one place and written in another - every byte of the announced size must be readable
 	isoFamilyCases(r.Thorough(), false, func(c isoCase) {
-		if c.huge {
-			return
+		if c.huge || c.family == "collide" {
+			return // colliding names are legitimately refused at creation: nothing to read
 		}
 		if !r.Thorough() {
 			var n, l int
